@@ -19,12 +19,18 @@ import (
 // The process time zone of the writer is symbolic.
 func VH_C04_day_arith() {
 	tz := vrt.SymbolicTZ()
-	ts := vrt.Int64("sample-ts-ns")
-	vrt.Assume(ts >= 0)
-	vrt.Assume(ts < 4000000000000000000) // < year 2096
-	from := vrt.Int64("query-from-ns")
-	vrt.Assume(from >= 0)
-	vrt.Assume(from <= ts)
+	// nanosecond instants = symbolic whole seconds + a sub-second part from a table: the code's divisions by
+	// 10^9 cancel syntactically
+	sec := vrt.Int64("sample-seconds")
+	vrt.Assume(sec >= 0)
+	vrt.Assume(sec < 4000000000) // < year 2096
+	fromSec := vrt.Int64("query-from-seconds")
+	vrt.Assume(fromSec >= 0)
+	vrt.Assume(fromSec < 4000000000)
+	vrt.Assume(fromSec <= sec)
+	sub := []int64{0, 1, 999999999}[vrt.Choice("sub-second-part", 3)]
+	ts := sec*1000000000 + sub
+	from := fromSec * 1000000000
 	if vrt.KnownFinding("C04-index-day-west-of-utc", tz < 0) {
 		return
 	}
